@@ -481,8 +481,8 @@ def c09(tier, seed):
 @check("C08")
 def c08(tier, seed):
     rng = random.Random(seed)
-    docs = docgen.c08_docs(rng, 12 if tier == "quick" else 150)
-    docs += docgen.c08_docs(rng, 4 if tier == "quick" else 40, dm="ecmascript", max_variants=3)
+    docs = docgen.c08_docs(rng, 12 if tier == "quick" else 45)
+    docs += docgen.c08_docs(rng, 4 if tier == "quick" else 14, dm="ecmascript", max_variants=3)
     docs += docgen.null_docs()
 
     def key(cls, doc, run, pos):
